@@ -1,17 +1,33 @@
-"""C18 -- key order (leaf part)"""
+"""C18 -- one key order everywhere: every comparison site as a leaf function (bit for bit against KeyDefs + the
+canonical-order oracle), and the sites that are inline in the split / routing code exercised through the store:
+full borders whose entries around the split point share one 8-byte slice and differ only in length, compared with
+the extracted model (results, Spec oracle, dumps)."""
+import json
+import random
+
 from . import common as C
 from . import leaf
+from . import seq
+
+
+def store_part(res):
+    seq.scripts_phase(res, "c18", seq.gen_split_boundary_scripts(random.Random(res.seed + 3), res.tier),
+                      ["res", "dump"], "split_boundary_scripts")
 
 
 def run(tier, seed):
     res = C.Result("C18", tier, seed, level="proof")
     res.assumptions = [
         "theorems are about the Coq definitions (coq/*Defs.v); tie: every real leaf function is run on generated "
-        "arguments and compared bit for bit with the extracted definitions",
+        "arguments and compared bit for bit with the extracted definitions; inline comparison sites (border split side "
+        "decision, interior routing during splits) are tied through store-level scripts against the extracted model",
     ]
-    return leaf.run_leaf_property(res, "c18", leaf.gen_key, leaf.nontrivial_key)
+    return leaf.run_leaf_property(res, "c18", leaf.gen_key, leaf.nontrivial_key, post=store_part)
 
 
 def replay(path, tier, seed):
+    r = json.load(open(path))
+    if str(r.get("kind", "")).startswith("seq-"):
+        return seq.replay_seq("C18", "c18", path, ["res", "dump"])
     res = C.Result("C18", tier, seed)
     return leaf.replay(res, "c18", path)
